@@ -113,6 +113,20 @@ func NewSchema(config SchemaConfig) (Schema, error) {
 		}
 	}
 
+	// the types of directive arguments belong to the schema as well (a type
+	// used by a directive only would otherwise be unknown to __type and to
+	// variable definitions)
+	for _, dir := range schema.directives {
+		for _, arg := range dir.Args {
+			if arg == nil || arg.Type == nil {
+				continue
+			}
+			if typeMap, err = typeMapReducer(&schema, typeMap, arg.Type); err != nil {
+				return schema, err
+			}
+		}
+	}
+
 	schema.typeMap = typeMap
 
 	// Keep track of all implementations by interface name and enforce
